@@ -77,7 +77,7 @@ CLAIMED = {
             'values untouched by assign/filter/sink must be the identical objects, every sink must have seen exactly the reference '
             'stream once and be closed; select/apply/assign with batch_size over caller-owned list/array/tuple columns must emit the '
             're-batched stream and leave the caller\'s records, their column objects and an upstream sink\'s records unchanged. '
-            '19 families of documented invalid combinations must raise while building/making, before an '
+            '21 families of documented invalid combinations must raise while building/making, before an '
             'element is pulled. A reference interpreter over generated programs is the natural exploration-level oracle.',
             'functions of known arity/result shape from vlib/targets.py; batch(n) groups the current output keys as documented.',
             '§3 C08'),
